@@ -172,9 +172,9 @@ def floors(tier):
     q = tier == "quick"
     return {
         "comparisons": {
-            "to_file": 150 if q else 3000,
-            "from_file": 120 if q else 2500,
-            "class": 100 if q else 2000,
+            "to_file": 120 if q else 3000,
+            "from_file": 90 if q else 2500,
+            "class": 90 if q else 2000,
             "data": 80 if q else 1500,
             "labels": 80 if q else 1500,
             "sources.names": 60 if q else 1200,
@@ -202,7 +202,7 @@ def floors(tier):
         "reach": ["%s:%s" % a for a in ANCHORS],
         "strata": sorted(set("|".join(str(x) for x in p[:3] if x is not None) for p in PLAN)) + FEATURE_STRATA,
         "sets": {"fit_type_cost": 12 if q else 30, "source_config": 12 if q else 30},
-        "distinct_nontrivial": 150 if q else 4000,
+        "distinct_nontrivial": 120 if q else 4000,
     }
 
 
@@ -1417,6 +1417,8 @@ def classify(h, obs, wit):
 
 
 def _classify(h, obs, wit):
+    if getattr(h, "mode", "roundtrip") == "state":
+        return None  # every known mechanism is one of to_file / from_file; save_state / load_state have none
     case, f = h.case, h.feats
     kind = case["kind"]
     path = str(wit.get("path", ""))
@@ -1803,6 +1805,7 @@ def run_case(ctx, case, tmp):
             ctx.add_to_set(name, it)
     h = History(ctx, inner, feats)
     h.tmp = tmp
+    h.mode = "state" if kind == "state" else "roundtrip"
     tag = "obj"
     if kind == "container":
         for s in case.get("sources", []):
